@@ -84,6 +84,18 @@ def case(cid, rng):
             c["H"] = Hs
             c["ld"] = fq(ld)
             c["score"] = fq([kde.score(Q / s)])[0]
+            try:
+                Hinv = np.array([np.linalg.inv(h) for h in H])                      # witnesses, verified by the specification
+                logdet = np.array([np.linalg.slogdet(h)[1] for h in H])
+                wn = np.asarray(kde.weights, float)
+                gwn = np.asarray(kde._sample_weights, float)
+                c["mix"] = {"id": cid + "-mix", "dim": dim, "cell": fq(np.asarray(cell, float) / s) if len(cell) else [],
+                            "D": fq(D / s), "G": fq(G / s), "Q": fq(Q / s), "w": fq(wn), "nlw": fq(-np.log(wn)),
+                            "gw": fq(gwn), "nlgw": fq(-np.log(np.maximum(gwn, 1e-300))), "labels": [int(v) + 1 for v in kde._sample_labels_],
+                            "H": [fq(h) for h in H], "Hinv": [fq(h) for h in Hinv], "logdet": fq(logdet),
+                            "kdecut": fq([kde.kdecut_squared])[0], "score": fq(ld)}
+            except Exception:
+                pass
             # symmetry routes (grid-point image shifts last, see known_findings.json)
             def route(kind_, D2, w2, G2, Q2):
                 try:
@@ -131,6 +143,12 @@ def run(tier):
     verdicts, stats = core.validate_cases("trace/TraceKDE.tla", [strip(c) for c in cases], timeout=7200)
     rep.add_trace_stats("TraceKDE", stats, len(cases))
     core.judge(rep, cases, verdicts)
+    # part 2: the mixture identity (table-driven exp), on every finite fit
+    mix = [c["mix"] for c in cases if c.get("mix") and c["finite"]]
+    mv, mstats = core.validate_cases("trace/TraceKDEMix.tla", mix, timeout=7200)
+    rep.add_trace_stats("TraceKDEMix", mstats, len(mix))
+    core.judge(rep, mix, mv)
+    rep.cov["mixture_identity_queries_decided"] = sum(int(v["ctx"].get("decided", 0)) for v in mv.values())
     kinds = {}
     for c in cases:
         k = "%s/%s" % (c["kind"], "periodic" if c["cell"] else "free")
@@ -139,7 +157,7 @@ def run(tier):
     rep.cov["routes"] = sum(len(c["routes"]) for c in cases)
     rep.sample({k: cases[0][k] for k in ("kind", "D", "w", "G", "cell", "labels", "gw", "ld")})
     rep.assumptions += ["integer lattice descriptors / grids / cells times a dyadic scale; assignment labels and grid weights are read from the private attributes _sample_labels_ / _sample_weights (skipped if renamed)",
-                        "the mixture formula itself (log of the Gaussian mixture) is not decided by this check, see DESIGN.md section 8"]
+                        "the mixture identity is evaluated with a table-driven exp (self-checked by TLC) to about 3 %; inverse bandwidths, log-determinants and log-weights are numpy witnesses verified by the specification; queries with |log-density| > 60 or a Mahalanobis distance within 0.5 % of the cut-off are not decided"]
     return rep.finish()
 
 
